@@ -96,6 +96,13 @@ func checkC09(r *core.Run) {
 	c09Witness(r, p)
 	c09MarkerFlag(r, p)
 	c09Sizes(r, p, ba)
+	if bt := p.Func("lib/btc.(*Block).BuildTxListExt"); bt != nil {
+		// every decoded transaction reaches a hashing worker: hash, size and the block weight cover all of them
+		r.Assume = append(r.Assume, "the size NewTx reports for a decoded transaction is not negative (it is tested to be non-zero)")
+		batchTiling(r, p, "R-C09-sizes", bt, 1)
+	} else {
+		r.Fail("R-C09-sizes", "batches/anchor", "-", "the block's transaction list builder was not found")
+	}
 }
 
 // c09Scope: the element decoders index their argument without length checks and rely on the
